@@ -62,6 +62,10 @@ func (frame *RstStreamFrame) write(f *Framer) (err error) {
 }
 
 func (frame *SettingsFrame) write(f *Framer) (err error) {
+	if len(frame.FlagIdValues) > MaxNumSettings {
+		// the reader refuses more, and 2^21 entries would overflow the 24-bit length
+		return &Error{InvalidControlFrame, 0}
+	}
 	frame.CFHeader.version = Version
 	frame.CFHeader.frameType = TypeSettings
 	frame.CFHeader.length = uint32(len(frame.FlagIdValues)*8 + 4)
@@ -227,6 +231,12 @@ func (f *Framer) writeSynStreamFrame(frame *SynStreamFrame) (err error) {
 		f.headerCompressor.Flush()
 	}
 
+	if len(f.headerBuf.Bytes())+10 > MaxFrameSize {
+		// does not fit the 24-bit length field
+		f.headerBuf.Reset()
+		return &Error{InvalidControlFrame, frame.StreamId}
+	}
+
 	// Set ControlFrameHeader.
 	frame.CFHeader.version = Version
 	frame.CFHeader.frameType = TypeSynStream
@@ -272,6 +282,11 @@ func (f *Framer) writeSynReplyFrame(frame *SynReplyFrame) (err error) {
 		f.headerCompressor.Flush()
 	}
 
+	if len(f.headerBuf.Bytes())+4 > MaxFrameSize {
+		f.headerBuf.Reset()
+		return &Error{InvalidControlFrame, frame.StreamId}
+	}
+
 	// Set ControlFrameHeader.
 	frame.CFHeader.version = Version
 	frame.CFHeader.frameType = TypeSynReply
@@ -309,6 +324,11 @@ func (f *Framer) writeHeadersFrame(frame *HeadersFrame) (err error) {
 	}
 	if !f.headerCompressionDisabled {
 		f.headerCompressor.Flush()
+	}
+
+	if len(f.headerBuf.Bytes())+4 > MaxFrameSize {
+		f.headerBuf.Reset()
+		return &Error{InvalidControlFrame, frame.StreamId}
 	}
 
 	// Set ControlFrameHeader.
